@@ -7,6 +7,7 @@ import (
 	"bytes"
 	"fmt"
 	"reflect"
+	"strconv"
 	"time"
 
 	astisub "github.com/asticode/go-astisub"
@@ -88,8 +89,12 @@ func (w *World) Build(a abs.Subs) *astisub.Subtitles {
 	for _, c := range a.Items {
 		it := &astisub.Item{Index: c.ID, StartAt: time.Duration(c.S) * w.Unit, EndAt: time.Duration(c.E) * w.Unit,
 			Style: styleRef(c.St), Region: regionRef(c.Rg)}
-		txt := atomText(c.T)
-		w.textAtom[txt] = c.T
+		// an even atom is a two-line text whose characters are those of the odd atom before it: the texts
+		// differ only in their line structure
+		txt, second := atomText(c.T), ""
+		if c.T > 0 && c.T%2 == 0 {
+			txt, second = "Text", strconv.Itoa(c.T-1)
+		}
 		if len(c.Rs) == 0 {
 			it.Lines = []astisub.Line{{Items: []astisub.LineItem{{Text: txt}}}}
 		} else {
@@ -104,6 +109,10 @@ func (w *World) Build(a abs.Subs) *astisub.Subtitles {
 			}
 			it.Lines = []astisub.Line{l}
 		}
+		if second != "" {
+			it.Lines = append(it.Lines, astisub.Line{Items: []astisub.LineItem{{Text: second}}})
+		}
+		w.textAtom[it.String()] = c.T
 		if w.Decorate {
 			// content that the operations must carry along untouched
 			it.Comments = []string{fmt.Sprintf("comment %d", c.ID)}
